@@ -1097,3 +1097,76 @@ Qed.
 (* a disabled poller publishes nothing; an enabled one stops at the first successful poll *)
 Lemma poll_tick_disabled : forall last answers, poll_tick false last answers = (last, [], false).
 Proof. reflexivity. Qed.
+
+(* ================================================================== poller + watcher: end to end *)
+Lemma split_first : forall (A : Type) (P : A -> bool) (l : list A),
+  (exists x, In x l /\ P x = true) ->
+  exists pre x post, l = pre ++ x :: post /\ P x = true /\ forall y, In y pre -> P y = false.
+Proof.
+  intros A P l. induction l as [|a t IH]; intros [x [Hin Hp]]; [contradiction|].
+  destruct (P a) eqn:Ea.
+  - exists [], a, t. repeat apply conj; [reflexivity|exact Ea|intros y Hy; contradiction].
+  - destruct Hin as [Hin|Hin]; [subst a; rewrite Hp in Ea; discriminate|].
+    destruct (IH (ex_intro _ x (conj Hin Hp))) as [pre [x' [post [E1 [E2 E3]]]]].
+    exists (a :: pre), x', post. repeat apply conj.
+    + rewrite E1. reflexivity.
+    + exact E2.
+    + intros y [Hy|Hy]; [subst y; exact Ea|apply E3; exact Hy].
+Qed.
+
+(* the poller's lastBlock is its first lastBlock or the last head it published *)
+Lemma poll_seq_last : forall answers last,
+  fst (poll_seq last answers) = last \/ In (fst (poll_seq last answers)) (map fst (snd (poll_seq last answers))).
+Proof.
+  intros answers. induction answers as [|a t IH]; intros last; [left; reflexivity|].
+  cbn [poll_seq]. rewrite poll_blocks_spec. destruct a as [l|].
+  - destruct (Z.ltb_spec last l) as [Hlt|Hge]; cbn [fst snd app map].
+    + right. destruct (IH l) as [E|E]; [left; symmetry; exact E|right; exact E].
+    + apply IH.
+  - cbn [fst snd app map]. apply IH.
+Qed.
+
+Definition heads_ops (orc : key -> rans) (heads : list (Z * bool)) : list op :=
+  map (fun h => OHead (fst h) (snd h) orc) heads.
+
+(* the node's answers to the polls are arbitrary (errors, stale blocks, jumps of any size); as soon as one of them is a new head
+   at or beyond height + consistency level, the message - whose receipt stays - has been forwarded exactly once *)
+Theorem end_to_end : forall c s k p orc last answers,
+  NoDup (keys s) -> find k s = Some p -> wf_p p ->
+  orc k = mkAns (Some (1, k_bh k)) ENone ->
+  0 <= last -> (forall a, In (Some a) answers -> a < two64) ->
+  (exists a, In (Some a) answers /\ last < a /\ p_height p + (if c_wait c then m_cl (p_msg p) else 0) <= a) ->
+  let r := run c s (heads_ops orc (snd (poll_seq last answers))) in
+  decisions k (snd r) = [Confirmed k (p_msg p)] /\ find k (fst r) = None.
+Proof.
+  intros c s k p orc last answers Hnd Hf Hp Hgood Hlast Hrange [a [Ha1 [Ha2 Ha3]]] r.
+  set (thr := p_height p + (if c_wait c then m_cl (p_msg p) else 0)) in *.
+  destruct (poll_seq_spec answers last) as [S1 [S2 [S3 S4]]].
+  rewrite Forall_forall in S4.
+  (* some published head is deep enough *)
+  assert (Hex : exists h, In h (snd (poll_seq last answers)) /\ (thr <=? fst h) = true).
+  { destruct (poll_seq_last answers last) as [E|E].
+    - specialize (S2 a Ha1). rewrite E in S2. lia.
+    - apply in_map_iff in E. destruct E as [h [Eh Hh]]. exists h. split; [exact Hh|].
+      apply Z.leb_le. rewrite Eh. specialize (S2 a Ha1). lia. }
+  destruct (split_first _ (fun h => thr <=? fst h) _ Hex) as [pre [x [post [E1 [E2 E3]]]]].
+  apply Z.leb_le in E2.
+  assert (Hin_all : forall h, In h (pre ++ x :: post) -> 0 <= fst h < two64 /\ snd h = false).
+  { intros h Hh. rewrite <- E1 in Hh. destruct (S4 h Hh) as [J1 [_ [J3 J4]]]. split; [|exact J4].
+    split; [lia|apply Hrange; exact J3]. }
+  assert (Hexp : forall sf, sf = false -> expected_of (c_wait c) sf p = if c_wait c then m_cl (p_msg p) else 0).
+  { intros sf E. subst sf. unfold expected_of. rewrite expected_spec. destruct (c_wait c); reflexivity. }
+  subst r. rewrite E1. unfold heads_ops. rewrite map_app. cbn [map].
+  destruct (Hin_all x) as [Hxr Hxs]; [apply in_or_app; right; left; reflexivity|].
+  assert (Hrl : forall l, no_relog k (map (fun h : Z * bool => OHead (fst h) (snd h) orc) l)).
+  { intros l o Ho. apply in_map_iff in Ho. destruct Ho as [h [Eo _]]. subst o. reflexivity. }
+  destruct (forwarded_exactly_once c s k p (map (fun h => OHead (fst h) (snd h) orc) pre) (fst x) (snd x) orc
+              (map (fun h => OHead (fst h) (snd h) orc) post) Hnd Hf Hp (Hrl pre) (Hrl post)) as [R1 [_ R3]].
+  - intros n safe orc' Hin. apply in_map_iff in Hin. destruct Hin as [h [Eh Hh]]. inversion Eh. subst n safe orc'.
+    destruct (Hin_all h) as [Hr Hs]; [apply in_or_app; left; exact Hh|].
+    split; [exact Hr|]. left. rewrite (Hexp _ Hs). specialize (E3 h Hh). apply Z.leb_gt in E3. exact E3.
+  - exact Hxr.
+  - rewrite (Hexp _ Hxs). exact E2.
+  - exact Hgood.
+  - split; [exact R1|exact R3].
+Qed.
